@@ -56,6 +56,10 @@ EigendecompositionResult eigendecomposition_impl_dense(const MatrixType& wm, Ind
 {
     timed_context context("Eigen library dense eigendecomposition");
 
+    if (static_cast<IndexType>(target_dimension + skip) > static_cast<IndexType>(wm.cols()))
+        throw wrong_parameter_error(fmt::format("Target dimension {} is too large for the eigenproblem of size {}",
+                                                target_dimension, wm.cols()));
+
     DenseSymmetricMatrix dense_wm = wm;
     dense_wm += dense_wm.transpose().eval();
     dense_wm /= 2.0;
@@ -92,6 +96,10 @@ EigendecompositionResult eigendecomposition_impl_randomized(const MatrixType& wm
                                                             unsigned int skip)
 {
     timed_context context("Randomized eigendecomposition");
+
+    if (static_cast<IndexType>(target_dimension + skip) > static_cast<IndexType>(wm.cols()))
+        throw wrong_parameter_error(fmt::format("Target dimension {} is too large for the eigenproblem of size {}",
+                                                target_dimension, wm.cols()));
 
     DenseMatrix O(wm.rows(), target_dimension + skip);
     for (IndexType i = 0; i < O.rows(); ++i)
